@@ -1,8 +1,10 @@
 package e1
 
 import (
+	"encoding/json"
 	"fmt"
 	"math/rand"
+	"sort"
 	"strings"
 	"sync"
 
@@ -26,6 +28,10 @@ type baselineInfo struct {
 	calls      int
 	writeCalls int
 	sync       map[string]map[string]interface{}
+	userActs   string
+	readPoints []int // one call index per distinct (actor, verb, kind, rollout phase, batchrelease phase) class of read calls
+	readClass  []string
+
 	terminal   bool
 	quiescent  bool
 	projection map[string]interface{}
@@ -44,25 +50,28 @@ func c06dims(env *core.Env) (B, K1, K2, K2r, K3 int) {
 	if env.Thorough() {
 		return 18, 260, 600, 2600, 60
 	}
-	return 6, 120, 60, 12, 6
+	return 6, 120, 90, 50, 6
 }
 
 func c06Scenario(env *core.Env, b int) *sim.Scenario {
 	rng := rand.New(rand.NewSource(env.Seed*7919 + int64(b)*104729 + 5))
 	// every workload kind / rolling style is among the baselines of every tier
 	all := append(append([]string{}, distinctFamilies()...), ExtraFamilies...)
-	return genForFamily("C06", rng, all[b%len(all)])
+	s := genForFamily("C06", rng, all[b%len(all)])
+	// the faulty runs are compared with the fault-free one: user events are performed at the instant their trigger state
+	// is persisted, so that they meet the release at the same logical point in every run
+	for i := range s.Events {
+		s.Events[i].Immediate = true
+	}
+	return s
 }
 
 func cloneScenario(s *sim.Scenario) *sim.Scenario {
-	c := *s
-	c.Steps = append([]sim.Step{}, s.Steps...)
-	c.Pre = append([]string{}, s.Pre...)
-	c.Events = nil
-	for _, e := range s.Events {
-		c.Events = append(c.Events, sim.Injected{AtStep: e.AtStep, AtState: e.AtState, Action: e.Action})
-	}
-	return &c
+	// through JSON: every exported field is copied, the events' "fired" marks are not
+	b, _ := json.Marshal(s)
+	c := &sim.Scenario{}
+	_ = json.Unmarshal(b, c)
+	return c
 }
 
 func c06Baseline(env *core.Env, b int) *baselineInfo {
@@ -75,12 +84,22 @@ func c06Baseline(env *core.Env, b int) *baselineInfo {
 	s := c06Scenario(env, b)
 	bi := &baselineInfo{scenario: s, fps: map[string]bool{}}
 	// count controller writes / calls with an empty (but armed) fault plan
-	r, m, vs, err := RunScenario(cloneScenario(s), &sim.FaultPlan{}, false)
+	r, m, vs, err := runScenarioOpt(cloneScenario(s), &sim.FaultPlan{}, false, func(r *sim.Run) { r.RecordCallClasses = true })
 	if err != nil {
 		bi.err = err.Error()
 	} else {
+		seen := map[string]bool{}
+		for i, c := range r.CallClasses {
+			if !(strings.Contains(c, " get ") || strings.Contains(c, " list ")) || seen[c] {
+				continue
+			}
+			seen[c] = true
+			bi.readPoints = append(bi.readPoints, i+1)
+			bi.readClass = append(bi.readClass, c)
+		}
 		bi.writes, bi.calls, bi.writeCalls = r.CtrlWrites(), r.CtrlCalls(), r.CtrlWriteCalls()
 		bi.sync = m.SyncPoints
+		bi.userActs = actionSet(r.UserActions)
 		bi.terminal, bi.quiescent = r.Terminal, r.Quiescent
 		bi.projection = m.Projection(r.W.Store.Snapshot())
 		for _, v := range vs {
@@ -97,7 +116,7 @@ func c06Baseline(env *core.Env, b int) *baselineInfo {
 func init() {
 	core.Register(&core.Check{
 		ID: "C06", Level: "fault_enumeration", ChunkSize: 1, Relevant: "faults_fired",
-		Rule: "cases = baseline scenario b (seed-determined closed-loop scenario incl. exit events) x fault f: a crash after the k-th controller write (k spread evenly over all controller writes of the baseline; every write in the thorough tier), an error / conflict / lost-response / timeout at the j-th controller WRITE call (every write call of the baseline at least once in the quick tier, with all four kinds in the thorough tier), an error / timeout at the j-th call of any verb (spread over all calls), or a random multi-fault plan. " +
+		Rule: "cases = baseline scenario b (seed-determined closed-loop scenario incl. exit events) x fault f: a crash after the k-th controller write (k spread evenly over all controller writes of the baseline; every write in the thorough tier), an error / conflict / lost-response / timeout at the j-th controller WRITE call (every write call of the baseline at least once in the quick tier, with all four kinds in the thorough tier), an error / timeout at read calls (quick: one per distinct class (actor, verb, kind, rollout phase / cleanup task, batchrelease phase) of the baseline's read calls; thorough: every call), or a random multi-fault plan. " +
 			"Each faulty run is judged against the fault-free baseline of the same scenario: monitors (C01-C05, C09-C11, C18) that were silent in the baseline stay silent, the terminal state is still reached within the budget, the configuration projection (workload strategy, ReplicaSet minReadySeconds, HPA target, Service selectors, routes, BatchRelease cursor, canary Deployments) at the first time each step is persisted as paused equals the baseline's at the same point, and the final user-visible projection equals the baseline's. distinct = (scenario family, fault kind, faulted actor/verb/kind site).",
 		Assumptions: []string{
 			"crash = CrashSignal panic right after a committed controller write; all reconcilers are rebuilt, grace and creation expectations reset, queues dropped, every object replayed as a create event",
@@ -162,6 +181,17 @@ func c06Case(env *core.Env, idx int) *core.CaseResult {
 		j := f - K1 - K2
 		kind = []string{"error", "timeout"}[j%2]
 		fp.FailCall = 1 + j*bi.calls/K2r
+		if K2r < bi.calls && len(bi.readPoints) > 0 {
+			// one read per distinct (call site, rollout phase, batchrelease phase) class, spread over the classes
+			fp.FailCall = bi.readPoints[(j*len(bi.readPoints)/K2r)%len(bi.readPoints)]
+			if len(bi.readPoints) <= K2r {
+				if j >= len(bi.readPoints) {
+					res.Count("fault_points_beyond_baseline", 1)
+					return res
+				}
+				fp.FailCall = bi.readPoints[j]
+			}
+		}
 		if K2r >= bi.calls {
 			// every call of the baseline
 			if j >= bi.calls {
@@ -258,7 +288,9 @@ func c06Case(env *core.Env, idx int) *core.CaseResult {
 		}
 	}
 	// (3) same final projection
-	if bi.terminal && bi.quiescent && r.Terminal && r.Quiescent && kind != "multi" && !affectedByKnown {
+	if bi.terminal && bi.quiescent && r.Terminal && r.Quiescent && kind != "multi" && !affectedByKnown && bi.userActs != actionSet(r.UserActions) {
+		res.Count("final_states_not_compared_different_user_actions", 1)
+	} else if bi.terminal && bi.quiescent && r.Terminal && r.Quiescent && kind != "multi" && !affectedByKnown {
 		res.Count("final_states_compared", 1)
 		got := m.Projection(r.W.Store.Snapshot())
 		if d := gen.FirstDiff("", bi.projection, got); d != "" {
@@ -269,6 +301,24 @@ func c06Case(env *core.Env, idx int) *core.CaseResult {
 		res.Sample = gen.NF{"scenario": s, "faultPlan": fp, "injected": r.InjectedFaults, "stop": r.StopReason, "restarts": r.W.Restarts}
 	}
 	return res
+}
+
+// actionSet is the set of user actions other than approvals (whose number depends on the schedule).
+func actionSet(l []string) string {
+	m := map[string]bool{}
+	for _, a := range l {
+		a = strings.TrimSpace(a)
+		if a == "approve" || a == "noop" || strings.HasPrefix(a, "->") {
+			continue
+		}
+		m[a] = true
+	}
+	var out []string
+	for a := range m {
+		out = append(out, a)
+	}
+	sort.Strings(out)
+	return strings.Join(out, ",")
 }
 
 func normPath(p string) string {
